@@ -1137,6 +1137,14 @@ func (db *DB) handleMemTableFlush(mt *memTable, dropPrefixes [][]byte) error {
 		tbl, err = table.OpenInMemoryTable(data, fileID, &bopts)
 	} else {
 		tbl, err = table.CreateTable(table.NewFilename(fileID, db.opt.Dir), builder)
+		if err == nil {
+			// The table is about to be recorded in the MANIFEST, which is fsync'ed: its directory
+			// entry has to be durable first (compactBuildTables does the same for its outputs).
+			if serr := db.syncDir(db.opt.Dir); serr != nil {
+				_ = tbl.DecrRef()
+				return y.Wrap(serr, "error while syncing directory of new table")
+			}
+		}
 	}
 	if err != nil {
 		return y.Wrap(err, "error while creating table")
